@@ -679,7 +679,13 @@ func (state *BuildState) forwardResults() {
 			close(result.flushed) // Not a real result, just tells CloseResults that we've got this far.
 			continue
 		}
-		if target := result.target; target != nil {
+		target := result.target
+		if target == nil && result.Status.IsFailure() {
+			// Failures are logged by label only; if we don't find the target here it stays active
+			// for ever and we never get to do any more cycle detection.
+			target = state.Graph.Target(result.Label)
+		}
+		if target != nil {
 			if result.Status.IsActive() {
 				activeTargets[target] = struct{}{}
 			} else {
